@@ -118,6 +118,7 @@ type fieldD struct {
 	FromStr  bool   // the `string` option
 	Shuffle  uint64 // != 0: the options are written in a pseudo-random order derived from it
 	Inherit  bool   // the `inherit` option: an absent value is taken from the nearest enclosing document level that has the key
+	IntKey   bool   // Map: the key type is int (go-zero only fills maps keyed by strings; the reference claims nothing about such a field)
 	Spaced   bool   // the segments of the tag are written with blanks around them
 	EscComma bool   // commas inside the default= / options=a|b texts are written escaped (\,) in the tag
 }
@@ -257,7 +258,11 @@ func (f *fieldD) goType() reflect.Type {
 	case reflect.Slice:
 		t = reflect.SliceOf(f.Elem.goType())
 	case reflect.Map:
-		t = reflect.MapOf(primTypes[reflect.String], f.Elem.goType())
+		kt := primTypes[reflect.String]
+		if f.IntKey {
+			kt = primTypes[reflect.Int]
+		}
+		t = reflect.MapOf(kt, f.Elem.goType())
 	case reflect.Struct:
 		t = f.Sub.goType()
 	default:
@@ -366,6 +371,9 @@ func (f *fieldD) typeText() string {
 	case reflect.Slice:
 		return p + "[]" + f.Elem.typeText()
 	case reflect.Map:
+		if f.IntKey {
+			return p + "map[int]" + f.Elem.typeText()
+		}
 		return p + "map[string]" + f.Elem.typeText()
 	case reflect.Struct:
 		return p + f.Sub.describe()
@@ -421,6 +429,9 @@ func (f *fieldD) shape() string {
 	}
 	if f.Spaced {
 		b.WriteString(",spaced")
+	}
+	if f.IntKey {
+		b.WriteString(",intkey")
 	}
 	return b.String()
 }
